@@ -36,3 +36,12 @@ Definition all_adtypes := [KBool; KI8; KI16; KI32; KI64; KU8; KU16; KU32; KU64; 
                            KLongDouble; KC64; KC128; KF8E4M3; KF8E5M2; KOther].
 Lemma all_libs_complete l : In l all_libs. Proof. destruct l; simpl; auto. Qed.
 Lemma all_adtypes_complete d : In d all_adtypes. Proof. destruct d; simpl; tauto. Qed.
+
+(* the exported tensor classes *)
+Inductive cls :=
+| CTensorTypeBase | CFloat | CFloat16 | CIEEE754Half | CBFloat16 | CFloat32 | CFloat64 | CDouble
+| CInt | CSignedInt | CUnsignedInt | CInt8 | CInt16 | CInt32 | CInt64 | CUInt8 | CUInt16 | CUInt32 | CUInt64 | CBool.
+Definition all_cls := [CTensorTypeBase; CFloat; CFloat16; CIEEE754Half; CBFloat16; CFloat32; CFloat64; CDouble;
+  CInt; CSignedInt; CUnsignedInt; CInt8; CInt16; CInt32; CInt64; CUInt8; CUInt16; CUInt32; CUInt64; CBool].
+Lemma all_cls_complete c : In c all_cls. Proof. destruct c; simpl; tauto. Qed.
+Definition dtok_lib_is_torch (e:dtok) : bool := match e with TO _ => true | NP _ => false end.
